@@ -16,6 +16,7 @@ import hashlib
 import json
 import multiprocessing
 import os
+import signal
 import sys
 import time
 import traceback
@@ -84,16 +85,66 @@ def load_findings():
         return json.load(f)['findings']
 
 
+# ---- hang detection: a property module calls track(res, case) before each evaluation; if the evaluation does not
+# come back within HANG_S seconds the worker turns it into a violation (signature 'hang') for that case ----------
+HANG_S = float(os.environ.get('VERIF_HANG_S', '20'))
+_track = {'res': None, 'case': None}
+
+
+class Hang(BaseException):
+    pass
+
+
+def _on_alarm(signum, frame):
+    raise Hang()
+
+
+def track(res, case):
+    _track['res'] = res
+    _track['case'] = case
+    signal.setitimer(signal.ITIMER_REAL, HANG_S)
+
+
+def untrack():
+    signal.setitimer(signal.ITIMER_REAL, 0)
+    _track['res'] = _track['case'] = None
+
+
+def guard(fn, seconds=None):
+    """Run fn(); return its value, or the string 'hang: …' when it does not finish in time."""
+    old = signal.signal(signal.SIGALRM, _on_alarm)
+    signal.setitimer(signal.ITIMER_REAL, seconds or HANG_S)
+    try:
+        return fn()
+    except Hang:
+        return f'hang: the evaluation did not finish within {seconds or HANG_S:.0f} s'
+    finally:
+        signal.setitimer(signal.ITIMER_REAL, 0)
+        signal.signal(signal.SIGALRM, old)
+
+
 def _worker(args):
     modname, spec = args
     import importlib
     mod = importlib.import_module(modname)
+    signal.signal(signal.SIGALRM, _on_alarm)
     try:
         return mod.work(spec)
+    except Hang:
+        r, case = _track['res'], _track['case']
+        if r is None:
+            r = new_result()
+            r['internal_error'] = f'spec={spec!r}: watchdog fired outside a tracked evaluation'
+            return r
+        add_violation(r, case, f'evaluation did not finish within {HANG_S:.0f} s (hang)', sig='hang')
+        r['notes'].append(f'shard {spec!r} abandoned after a hang')
+        return r
     except Exception:
         r = new_result()
         r['internal_error'] = f'spec={spec!r}\n' + traceback.format_exc()
         return r
+    finally:
+        untrack()
 
 
 class Run:
@@ -157,8 +208,8 @@ class Run:
             v = min(vs, key=lambda x: len(json.dumps(jsonable(x['case']))))
             # every verdict is re-established from scratch, twice, without the explorer
             try:
-                r1 = self.mod.replay(unjson(jsonable(v['case'])))
-                r2 = self.mod.replay(unjson(jsonable(v['case'])))
+                r1 = guard(lambda: self.mod.replay(unjson(jsonable(v['case']))))
+                r2 = guard(lambda: self.mod.replay(unjson(jsonable(v['case']))))
             except Exception:
                 self.internal_errors.append(f'replay of {sig} raised:\n' + traceback.format_exc())
                 continue
